@@ -143,10 +143,27 @@ func runC20(r *Run) {
 		path := func(f string) string { return filepath.Join(dir, fmt.Sprintf("s%d-%s.pem", sc, f)) }
 		r.Emit("tls reset", "ok")
 		fileNow := map[string]string{}
+		// how a CA file is replaced: an atomic rename of a new regular file over the old one, or - as a Kubernetes
+		// secret/configmap volume does it - the configured path is a SYMLINK that is re-pointed to a new target
+		// (the old target stays behind with the old content)
+		viaSymlink := sc%3 == 1
+		version := 0
 		write := func(f, name string) {
-			tmp := path(f) + ".tmp"
-			must(os.WriteFile(tmp, content[name], 0o644))
-			must(os.Rename(tmp, path(f)))
+			if viaSymlink {
+				version++
+				target := fmt.Sprintf("%s.data-%d", path(f), version)
+				must(os.WriteFile(target, content[name], 0o644))
+				tmpLink := path(f) + ".lnk"
+				_ = os.Remove(tmpLink)
+				must(os.Symlink(filepath.Base(target), tmpLink))
+				must(os.Rename(tmpLink, path(f)))
+				r.Dist["rewrite:symlink"]++
+			} else {
+				tmp := path(f) + ".tmp"
+				must(os.WriteFile(tmp, content[name], 0o644))
+				must(os.Rename(tmp, path(f)))
+				r.Dist["rewrite:rename"]++
+			}
 			r.Emit("tls rewrite "+hx(path(f))+" "+hx(name), "ok")
 			fileNow[f] = name
 		}
@@ -368,5 +385,5 @@ func runC20(r *Run) {
 			r.Sample(map[string]any{"history": history})
 		}
 	}
-	r.Finish("scenarios on one real TLS config pool: 4-8 events among loading settings (no CA / inline CA / CA file x skip-verify unset, bool, \"true\", \"false\", \"1\", junk x refresh interval 0/40/50 ms; the same file under different settings), atomic rewrites of the CA files (old CA, new CA, non-PEM) followed by a wait of 7 intervals, and probes; every client ever built (kept alive across rotations) is probed by REAL TLS handshakes against servers whose certificates chain to CA A, CA B and an unconfigured CA; outcomes are compared with the Lean trust model; non-trivial = every scenario, distinct by history")
+	r.Finish("scenarios on one real TLS config pool: 4-8 events among loading settings (no CA / inline CA / CA file x skip-verify unset, bool, \"true\", \"false\", \"1\", junk x refresh interval 0/40/50 ms; the same file under different settings), atomic rewrites of the CA files (old CA, new CA, non-PEM; by renaming a new file over the old one or, in a third of the scenarios, by re-pointing a symlink as a Kubernetes volume does) followed by a wait of 7 intervals, and probes; every client ever built (kept alive across rotations) is probed by REAL TLS handshakes against servers whose certificates chain to CA A, CA B and an unconfigured CA; outcomes are compared with the Lean trust model; non-trivial = every scenario, distinct by history")
 }
